@@ -285,37 +285,57 @@ theorem c04_grpc_iff (reqs resps : List Msg)
     ∀ it ∈ (pair reqs resps).1, it.grpc = (grpcMarked it.request.headers || grpcMarked it.response.headers) := by
   unfold pair
   simp only
-  -- generalise the fold: accumulated items satisfy the claim, the pending requests come from `reqs`
-  have gen : ∀ (rs : List Msg) (acc : List Item × List Msg),
-      (∀ r ∈ rs, r ∈ resps) → (∀ q ∈ acc.2, q ∈ reqs) →
+  -- the fold keeps: accumulated items satisfy the claim, open messages carry their own marker
+  have gen : ∀ (ms : List Msg) (acc : List Item × List Msg),
+      (∀ m ∈ ms, m.isGrpc = grpcMarked m.headers) → (∀ o ∈ acc.2, o.isGrpc = grpcMarked o.headers) →
       (∀ it ∈ acc.1, it.grpc = (grpcMarked it.request.headers || grpcMarked it.response.headers)) →
-      ∀ it ∈ (rs.foldl (fun (acc : List Item × List Msg) (r : Msg) =>
-          match acc.2.find? (·.sid == r.sid) with
-          | some q => (acc.1 ++ [{ request := q, response := r, grpc := r.isGrpc || q.isGrpc }], acc.2.filter (·.sid != r.sid))
-          | none => acc) acc).1,
+      ∀ it ∈ (ms.foldl register acc).1,
         it.grpc = (grpcMarked it.request.headers || grpcMarked it.response.headers) := by
-    intro rs
-    induction rs with
+    intro ms
+    induction ms with
     | nil => intro acc _ _ h; simpa using h
-    | cons r rest ih =>
-      intro acc hrs hacc h
+    | cons m rest ih =>
+      intro acc hms hopen h
       simp only [List.foldl_cons]
+      have hm := hms m (by simp)
       apply ih
-      · exact fun x hx => hrs x (by simp [hx])
-      · cases hf : acc.2.find? (·.sid == r.sid) with
-        | none => simpa [hf] using hacc
-        | some q => simp only [hf]; exact fun x hx => hacc x (List.mem_filter.mp hx).1
-      · cases hf : acc.2.find? (·.sid == r.sid) with
-        | none => simpa [hf] using h
-        | some q =>
-          simp only [hf]
-          intro it hit
-          simp only [List.mem_append, List.mem_singleton] at hit
-          rcases hit with hit | rfl
-          · exact h it hit
-          · have hqm : q ∈ reqs := hacc q (List.mem_of_find?_eq_some hf)
-            have hrm : r ∈ resps := hrs r (by simp)
-            simp only [hq q hqm, hr r hrm, Bool.or_comm]
-  exact gen resps ([], reqs) (fun _ h => h) (fun _ h => h) (by simp)
+      · exact fun x hx => hms x (by simp [hx])
+      · unfold register
+        cases hf : acc.2.find? (·.sid == m.sid) with
+        | none =>
+          intro o ho
+          simp only [List.mem_append, List.mem_singleton] at ho
+          rcases ho with ho | rfl
+          · exact hopen o ho
+          · exact hm
+        | some o =>
+          simp only
+          split
+          · exact fun x hx => hopen x (List.mem_filter.mp hx).1
+          · split <;> exact fun x hx => hopen x (List.mem_filter.mp hx).1
+      · unfold register
+        cases hf : acc.2.find? (·.sid == m.sid) with
+        | none => simpa using h
+        | some o =>
+          have ho := hopen o (List.mem_of_find?_eq_some hf)
+          simp only
+          split
+          · exact h
+          · split
+            · intro it hit
+              simp only [List.mem_append, List.mem_singleton] at hit
+              rcases hit with hit | rfl
+              · exact h it hit
+              · simp [hm, ho]
+            · intro it hit
+              simp only [List.mem_append, List.mem_singleton] at hit
+              rcases hit with hit | rfl
+              · exact h it hit
+              · simp [hm, ho, Bool.or_comm]
+  exact gen (reqs ++ resps) ([], []) (by
+      intro m hm
+      rcases List.mem_append.mp hm with h | h
+      · exact hq m h
+      · exact hr m h) (by simp) (by simp)
 
 end KsVerif.Proofs.C04
